@@ -49,10 +49,37 @@ TIMEOUT = {"quick": 240, "thorough": 1500}
 
 
 # --------------------------------------------------------------------------------
-def flip_bit(rng, b):
+def prefix_offsets(blob, inner_of_last=False):
+    """Byte offsets of the uint32 length prefixes of the consecutive strings in `blob` (and, optionally, of the
+    two strings nested in the last one: the (r, s) pair of an ECDSA signature)."""
+    offs = []
+    off = 0
+    last = None
+    while off + 4 <= len(blob):
+        n = int.from_bytes(blob[off:off + 4], "big")
+        if off + 4 + n > len(blob):
+            break
+        offs.append(off)
+        last = (off + 4, n)
+        off += 4 + n
+    if inner_of_last and last is not None:
+        base, n = last
+        offs += [base + o for o in prefix_offsets(blob[base:base + n])]
+    return offs
+
+
+def flip_bit(rng, b, prefixes=()):
+    """Flip one uniformly drawn bit.  Re-drawn: bits 17-19 of a length prefix (128 KiB .. 1 MiB past the end of
+    the data).  Such a reply is handled like any other altered one, but paramiko zero-pads the field to that
+    size and `util.inflate_long` then needs from seconds to minutes of CPU for it, which would turn every such
+    case into a wall-clock question (reported separately in notes/groupF2.md)."""
     if not b:
         return b
-    i = rng.randrange(len(b) * 8)
+    slow = {(o + 1) * 8 + bit for o in prefixes for bit in (1, 2, 3)}
+    while True:
+        i = rng.randrange(len(b) * 8)
+        if i not in slow:
+            break
     out = bytearray(b)
     out[i // 8] ^= 1 << (i % 8)
     return bytes(out)
@@ -78,16 +105,16 @@ def corrupt(field, kex, hostalg, payload, rng):
     """Return the reply payload with exactly one field changed."""
     ks, f, sig = kexlab.parse_reply(payload)
     if field == "hostkey_bit":
-        ks = flip_bit(rng, ks)
+        ks = flip_bit(rng, ks, prefix_offsets(ks))
     elif field == "f_bit":
         f = flip_bit(rng, f)
     elif field == "f_other":
         f = other_public(kex, f, rng)
     elif field == "sig_bit":
         name, body = sshsig.parse_sig(sig)
-        sig = sshsig.s(name) + sshsig.s(flip_bit(rng, body))
+        sig = sshsig.s(name) + sshsig.s(flip_bit(rng, body, prefix_offsets(body) if name.startswith("ecdsa") else ()))
     elif field == "sigblob_bit":
-        sig = flip_bit(rng, sig)
+        sig = flip_bit(rng, sig, prefix_offsets(sig, inner_of_last=sshsig.parse_sig(sig)[0].startswith("ecdsa")))
     elif field == "sig_lenprefix":
         # most significant bit-pair of the length prefix of the signature body (inside the signature field)
         name, body = sshsig.parse_sig(sig)
@@ -352,7 +379,14 @@ def corrupt_case(ctx, kex, hostalg, field, exchange, sample):
         later_newkeys = newkeys_after_reply()
         wit = dict(case=desc, reply=bad["payload"], original_reply=state["orig"],
                    client_exc=repr(lab.pair.client_exc or lab.tc.saved_exception))
-        if later_newkeys or lab.tc.is_active():
+        if not later_newkeys and lab.tc.is_active():
+            # neither aborted nor answered yet: give it time, but never decide from the clock
+            pair.wait_for(lambda: not lab.tc.is_active() or newkeys_after_reply(), 90)
+            later_newkeys = newkeys_after_reply()
+            if not later_newkeys and lab.tc.is_active():
+                ctx.inconclusive("client neither aborted nor sent NEWKEYS within 120 s of a corrupted reply: %r" % desc)
+                return
+        if later_newkeys:
             if encoding_only(state["orig"], state["new"]):
                 # same K_S, same f, same algorithm name and same signature value once the strings are
                 # read the way Message.get_bytes reads them: only a length prefix was changed
@@ -361,12 +395,9 @@ def corrupt_case(ctx, kex, hostalg, field, exchange, sample):
                               "signature (over-long length prefix tolerated)",
                               "a bit of a length prefix inside the reply's signature field was changed in transit and "
                               "the client still completed the exchange", wit)
-            elif later_newkeys:
+            else:
                 ctx.violation("client sent NEWKEYS after a corrupted kex reply (%s)" % field,
                               "the client answered a reply with an altered %s with NEWKEYS" % field, wit)
-            else:
-                ctx.violation("client still active after a corrupted kex reply (%s)" % field,
-                              "the client did not abort after a reply with an altered %s" % field, wit)
         else:
             ctx.count("aborts_observed")
             if api_raised:
